@@ -22,9 +22,11 @@ class Recorder:
     def __init__(self):
         self.events = []
 
-    RESETS = {'HReset', 'StreamReset', 'CReset', 'RpcReset'}
+    RESETS = {'HReset', 'StreamReset', 'CReset', 'RpcReset', 'ConnReset'}
 
     def add(self, action, props, **fields):
+        import observers
+        observers.arm(observers.WATCHDOG_SECONDS)       # a library call that never returns must not hang the check
         if action in self.RESETS:
             self.session = getattr(self, 'session', 0) + 1
         e = {'id': len(self.events) + 1, 'a': action, 'p': list(props)}
